@@ -6,6 +6,7 @@ import (
 
 	"github.com/gofiber/fiber/v3"
 	"github.com/gofiber/fiber/v3/internal/memory"
+	"github.com/gofiber/utils/v2"
 )
 
 // msgp -file="manager.go" -o="manager_msgp.go" -tests=false -unexported
@@ -88,6 +89,8 @@ func (m *manager) set(key string, it *item, exp time.Duration) {
 		// we can release data because it's serialized to database
 		m.release(it)
 	} else {
-		m.memory.Set(key, it, exp)
+		// the key may refer to the buffers of the request it was taken from (a KeyGenerator
+		// returning a header or query value): the store needs a string of its own
+		m.memory.Set(utils.CopyString(key), it, exp)
 	}
 }
